@@ -185,7 +185,7 @@ func genFee(t *rapid.T, label string) string {
 
 var defaultWeights = map[string]int{
 	"send": 30, "cancel": 7, "reqbatch": 7, "deposit": 4, "transfer": 6, "exec": 4,
-	"tick": 2, "hb": 1, "relay": 5, "block": 24, "burst": 0, "xexec": 14, "xtick": 7,
+	"tick": 2, "hb": 1, "relay": 5, "block": 24, "burst": 0, "xexec": 14, "xtick": 7, "send2": 4,
 }
 
 // GenOps draws the operation list for a configuration.
@@ -203,7 +203,7 @@ func GenOps(t *rapid.T, cfg sim.Config, o GenOpts) []Op {
 	if o.Bursts && w["burst"] == 0 {
 		w["burst"] = 2
 	}
-	kinds := []string{"send", "cancel", "reqbatch", "deposit", "transfer", "exec", "tick", "hb", "relay", "block", "burst", "xexec", "xtick"}
+	kinds := []string{"send", "cancel", "reqbatch", "deposit", "transfer", "exec", "tick", "hb", "relay", "block", "burst", "xexec", "xtick", "send2"}
 	total := 0
 	for _, k := range kinds {
 		total += w[k]
@@ -245,7 +245,7 @@ func GenOps(t *rapid.T, cfg sim.Config, o GenOpts) []Op {
 		}
 		op := Op{K: kind}
 		switch kind {
-		case "send":
+		case "send", "send2": // send2 = two sends in one transaction (they share the tx hash)
 			op.U = rapid.IntRange(0, 2).Draw(t, "u")
 			op.C = chainGen.Draw(t, "c")
 			op.D = denomGen.Draw(t, "d")
